@@ -234,6 +234,9 @@ def fillFlags (i : Nat) : List (Ev Skel Value) → List Json
     | .run j buf => if j == i then buf.map flag ++ fillFlags i r else fillFlags i r
     | _ => fillFlags i r
 
+/-- equality of skeletons (immutable data): equality of their printed forms -/
+def skelEq (a b : Skel) : Bool := toString (repr a) == toString (repr b)
+
 def checkRun (brs : List (Branch HSt Skel Value)) (bufsize : Option Nat) (copyBuf : Bool) (st0 : Store Value)
     (flow : List HItem) : Json :=
   let tr := (Split.runTrace { branches := brs, bufsize := bufsize, copyBuf := copyBuf } st0 flow).1
@@ -242,17 +245,27 @@ def checkRun (brs : List (Branch HSt Skel Value)) (bufsize : Option Nat) (copyBu
     let sched := (bl.zip (handsOf b.id tr)).map (fun p => (p.1, p.2.1, p.2.2))
     let alone := aloneTrace st0 b sched bl.isEmpty
     Json.mkObj [("proj_eq", Json.bool (evsString (proj b.id tr) == evsString alone)),
+      ("sched_ok", Json.bool (sched.all (schedOKb skelEq b.id))),
       ("alone", Json.arr (plainOuts alone).toArray), ("fills", Json.arr (fillFlags b.id tr).toArray)])
   Json.mkObj [("disjoint", Json.bool (decide ((tr.map handCells).Pairwise Disj))), ("branches", Json.arr per.toArray)]
 
 def checkFill (fill1 : HItem → World Value → List (Branch HSt Skel Value) → FillAllRes HSt Skel Value)
-    (brs : List (Branch HSt Skel Value)) (st0 : Store Value) (flow : List HItem) : Json :=
-  let tr := (fillFlow fill1 { st := st0, cc := 0 } brs flow).evs
+    (brs : List (Branch HSt Skel Value)) (st0 : Store Value) (flow : List HItem) (req : Req Skel)
+    (ev : Nat → Ev Skel Value) : Json :=
+  let f := fillFlow fill1 { st := st0, cc := 0 } brs flow
+  let tr := f.evs
+  let ctr := (collect req ev f.w.st f.brs).1
   let per := brs.map (fun b =>
-    let sched := (flow.zip (handsOf b.id tr)).map (fun p => (p.1, p.2.1.headD p.1, p.2.2))
-    let alone := (aloneFillLife st0 st0 b sched).1
-    Json.mkObj [("proj_eq", Json.bool (evsString (proj b.id tr) == evsString alone)),
-      ("alone", Json.null), ("fills", Json.arr (fillFlags b.id tr).toArray)])
+    let hands := handsOf b.id tr
+    let sched := (flow.zip hands).map (fun p => (p.1, p.2.1.headD p.1, p.2.2))
+    let al := aloneFillLife st0 st0 b sched
+    -- the conclusion of `split_fill_alone_equiv` / `zip_fill_alone_equiv` about what the branch then yields
+    let a := al.2.2.1.ops.act al.2.1 al.2.2.1.st req
+    let aloneOuts : List (Ev Skel Value) := outsEv b.id a.1 a.2.2.outs
+    Json.mkObj [("proj_eq", Json.bool (evsString (proj b.id tr) == evsString al.1 &&
+        evsString (proj b.id ctr) == evsString (ev b.id :: aloneOuts))),
+      ("sched_ok", Json.bool (hands.all (fun h => h.1.length == 1) && sched.all (fillOKb skelEq b.id))),
+      ("alone", Json.arr (plainOuts aloneOuts).toArray), ("fills", Json.arr (fillFlags b.id tr).toArray)])
   Json.mkObj [("disjoint", Json.bool (decide ((tr.map handCells).Pairwise Disj))), ("branches", Json.arr per.toArray)]
 
 /-- the reserved object in which the driver records the first exception an invocation returns -/
@@ -312,8 +325,12 @@ def handleSplit (j : Json) : Json :=
       if (bool? (getD j "check")).getD false then
         match mode with
         | "run" => checkRun brs bufsize copyBuf st0 flow
-        | "fill" => checkFill (splitFill copyBuf) brs st0 flow
-        | _ => checkFill zipFill brs st0 flow
+        | "fill" =>
+          let allFr := specs.all (fun s => s.kind == .fillRequest)
+          checkFill (splitFill copyBuf) brs st0 flow (if allFr then .request else .compute) (if allFr then Ev.request else Ev.compute)
+        | _ =>
+          let allFr := specs.all (fun s => s.kind == .fillRequest)
+          checkFill zipFill brs st0 flow (if allFr then .request else .compute) (if allFr then Ev.request else Ev.compute)
       else Json.null
     Json.mkObj [("flow", Json.arr rf.2.toArray), ("outs", Json.arr ro.2.toArray), ("stopped", Json.bool res.2.2),
       ("check", chk), ("raised", raised)]
